@@ -544,6 +544,15 @@ static bool read_lead(zckCtx *zck) {
         return false;
     }
 
+    if(header_length > SIZE_MAX - (length + zck->hash_type.digest_size)) {
+        free(header);
+        zck->header_length = 0;
+        zck->hdr_digest_loc = 0;
+        hash_reset(&(zck->hash_type));
+        set_error(zck, "Integer overflow when reading lead");
+        return false;
+    }
+
     /* Read header digest */
     zck_log(ZCK_LOG_DEBUG, "Reading header digest");
     /* Only grow the buffer; the first lead bytes read may already extend past
